@@ -257,7 +257,12 @@ def _op_bvp(ctx, op, state):
     # results handed out earlier belong to the caller: a later evaluation (same number of points, other points) must
     # not change them
     keep = yc.copy()
+    # ... and the points of the second evaluation come in no particular order (shuffled / descending / with repeats)
     x2 = np.linspace(a + 0.013 * (b - a), b - 0.021 * (b - a), 25)
+    rs2 = np.random.RandomState((bseed * 31 + ctx.step) % (2**32))
+    x2 = x2[rs2.permutation(25)] if (bseed + ctx.step) % 3 else x2[::-1].copy()
+    if (bseed + ctx.step) % 5 == 0:
+        x2[3] = x2[11]
     o2 = _outcome(lambda: np.asarray(sol(x2), dtype=float))
     if o2[0] == "ok":
         if not np.array_equal(yc, keep, equal_nan=True):
@@ -365,9 +370,14 @@ def _op_ivp(ctx, op, state):
         ctx.violate("eval-raise", "ivp", f"{sig}:{type(oe[1]).__name__}", f"IVP solution callable raised {oe[1]!r} (transform {tspec})")
         return
     keep = oe[1].copy()
-    o2 = _outcome(lambda: np.asarray(oc[1](np.linspace(min(a, b), max(a, b), 25)[::-1].copy()), dtype=float))
+    xr = np.linspace(min(a, b), max(a, b), 25)[np.random.RandomState(ctx.step + P["n"]).permutation(25)]
+    o2 = _outcome(lambda: np.asarray(oc[1](xr.copy()), dtype=float))
     if o2[0] == "ok" and not np.array_equal(oe[1], keep, equal_nan=True):
         ctx.violate("result-overwritten", "ivp", sig, "an array returned by the IVP solution callable changed when the callable was evaluated again at other points")
+    if o2[0] == "ok":
+        e2 = _errors(P, o2[1], xr)
+        if not np.isfinite(max(e2)) or max(e2) / 1e-8 > IVP_ENVELOPE:
+            ctx.violate("accuracy", "ivp", sig, f"IVP solution evaluated at unordered points is off by {max(e2):.3g} (order {P['order']}, transform {tspec}, method {method})")
     errs = _errors(P, oe[1], xe)
     ratio = max(errs) / 1e-8
     ctx.probes.hit("ivp-solved")
